@@ -506,3 +506,4 @@ def check(run, replay=None):
 
 # workloads added in seeding rounds 7-10 (DESIGN.md sections 13.9-13.12)
 LEVEL_TEXT = LEVEL_TEXT + ' Later additions: scratch-array histories, reference lattice built by the harness from the cell parameters, reference cells within 1e-3 degree of right angles, phase ids as arbitrary dictionary keys, labels maps with repeating values.'
+LEVEL_TEXT = LEVEL_TEXT + ' Round 11: two-phase maps assembled by TensorMap.from_grainsinos from stand-in grain sinograms.'
